@@ -167,7 +167,7 @@ fn report_graph_bads<D: ByteDev>(ctx: &mut Ctx, g: &Graph<ScanSys<D>>, sys: &Sca
 /// keys seen Down, keys seen Up)
 fn lockstep_bfs<D: ByteDev>(ctx: &mut Ctx, label: &str) -> (usize, u64) {
     let sys = Arc::new(ScanSys::<D>::new());
-    let (g, sr, errs) = explore_both(sys.clone(), true);
+    let (g, sr, errs) = explore_both(sys.clone(), true, 20_000);
     for e in errs {
         ctx.machinery(&format!("{}: {}", label, e));
     }
@@ -233,36 +233,44 @@ struct TreeBad {
     observed: String,
 }
 
-fn tree_rec<D: ByteDev>(d: &D, c: RCtx, depth: usize, max: usize, path: &mut Vec<u8>, n: &mut u64, bads: &mut Vec<TreeBad>, nbad: &mut u64) {
-    for b in 0..=255u8 {
+/// One tree level. `only` restricts this level to a single byte (used to split the work over the
+/// first byte). With `guard` every call of the subject runs under catch_unwind and a panic is a
+/// result like any other (it differs from every reference result).
+fn tree_rec<D: ByteDev>(d: &D, c: RCtx, depth: usize, max: usize, only: Option<u8>, guard: bool, path: &mut Vec<u8>, n: &mut u64, bads: &mut Vec<TreeBad>, nbad: &mut u64) {
+    let (lo, hi) = match only {
+        Some(b) => (b, b),
+        None => (0u8, 255u8),
+    };
+    for b in lo..=hi {
         let mut d2 = d.clone();
-        let r = d2.feed(b);
+        let r: Result<EvR, String> = if guard { feed_guarded(&mut d2, b) } else { Ok(d2.feed(b)) };
         *n += 1;
         let (allowed, nc) = ref_step(D::SET, c, b);
-        if !allowed.admits(&r) {
+        let ok = matches!(&r, Ok(x) if allowed.admits(x));
+        if !ok {
             *nbad += 1;
+            let obs = match &r {
+                Ok(x) => fmt_ev(x),
+                Err(p) => p.clone(),
+            };
             if bads.len() < 64 {
                 let mut p = path.clone();
                 p.push(b);
                 bads.push(TreeBad {
                     key: edge_key(D::SET, c, b),
-                    text: format!(
-                        "{}: after stream {:02X?}, byte 0x{:02X} must give {} but the code gives {}",
-                        D::component(),
-                        path,
-                        b,
-                        allowed.text(),
-                        fmt_ev(&r)
-                    ),
+                    text: format!("{}: after stream {:02X?}, byte 0x{:02X} must give {} but the code gives {}", D::component(), path, b, allowed.text(), obs),
                     path: p,
                     expected: allowed.text(),
-                    observed: fmt_ev(&r),
+                    observed: obs,
                 });
             }
         }
+        if r.is_err() {
+            continue; // the object may be half-updated after a panic: do not build on it
+        }
         if depth + 1 < max {
             path.push(b);
-            tree_rec(&d2, nc, depth + 1, max, path, n, bads, nbad);
+            tree_rec(&d2, nc, depth + 1, max, None, guard, path, n, bads, nbad);
             path.pop();
         }
     }
@@ -271,49 +279,35 @@ fn tree_rec<D: ByteDev>(d: &D, c: RCtx, depth: usize, max: usize, path: &mut Vec
 /// all byte streams of length <= max, depth-first with prefix sharing, split over the first byte
 fn stream_tree<D: ByteDev>(ctx: &mut Ctx, label: &str, max: usize) {
     let results = par_chunks(256, |first| {
-        let mut n = 0u64;
-        let mut nbad = 0u64;
-        let mut bads = vec![];
-        let res = catch_unwind(AssertUnwindSafe(|| {
-            let b = first as u8;
-            let mut d = D::fresh();
-            let r = d.feed(b);
-            n += 1;
-            let (allowed, nc) = ref_step(D::SET, CTX2_INIT, b);
-            if !allowed.admits(&r) {
-                nbad += 1;
-                bads.push(TreeBad {
-                    key: edge_key(D::SET, CTX2_INIT, b),
-                    text: format!("{}: first byte 0x{:02X} must give {} but the code gives {}", D::component(), b, allowed.text(), fmt_ev(&r)),
-                    path: vec![b],
-                    expected: allowed.text(),
-                    observed: fmt_ev(&r),
-                });
-            }
-            if max > 1 {
-                let mut path = vec![b];
-                tree_rec(&d, nc, 1, max, &mut path, &mut n, &mut bads, &mut nbad);
-            }
-        }));
-        (n, nbad, bads, res.err().map(crate::replay::panic_text))
+        let run = |guard: bool| {
+            let mut n = 0u64;
+            let mut nbad = 0u64;
+            let mut bads = vec![];
+            let mut path = vec![];
+            tree_rec(&D::fresh(), CTX2_INIT, 0, max, Some(first as u8), guard, &mut path, &mut n, &mut bads, &mut nbad);
+            (n, nbad, bads)
+        };
+        // fast path without per-call guards; if anything panics, redo this chunk with every call guarded
+        match catch_unwind(AssertUnwindSafe(|| run(false))) {
+            Ok(r) => (r, false),
+            Err(_) => (run(true), true),
+        }
     });
     let mut total = 0u64;
     let mut nbad = 0u64;
-    for (n, nb, bads, panic) in results {
+    let mut slow = 0;
+    for ((n, nb, bads), was_slow) in results {
         total += n;
         nbad += nb;
+        slow += was_slow as u32;
         for b in bads {
             let ops = b.path.iter().map(|x| Op::Byte(*x)).collect();
             ctx.violation(&b.key, &b.text, Replay::one(&D::component(), ops, &b.expected, Some(b.observed)));
         }
-        if let Some(p) = panic {
-            // a panic inside the tree is located precisely by the BFS part (which guards every call)
-            ctx.note(&format!("{}: a stream-tree chunk panicked: {}", label, p));
-        }
     }
     ctx.evaluations += total;
     ctx.traces_validated += total;
-    ctx.part(label, json!({"engine": "B stream tree", "max_stream_length": max, "stream_positions_checked": total, "violating_positions": nbad}));
+    ctx.part(label, json!({"engine": "B stream tree", "max_stream_length": max, "stream_positions_checked": total, "violating_positions": nbad, "chunks_rerun_with_panic_guards": slow}));
 }
 
 fn readme_note(ctx: &mut Ctx) {
@@ -420,7 +414,7 @@ impl<D: ByteDev> Sys for BareSys<D> {
 
 fn c07_graph<D: ByteDev>(ctx: &mut Ctx, label: &str, max_chain: u32) {
     let sys = Arc::new(BareSys::<D>::new());
-    let (g, sr, errs) = explore_both(sys.clone(), true);
+    let (g, sr, errs) = explore_both(sys.clone(), true, 20_000);
     for e in errs {
         ctx.machinery(&format!("{}: {}", label, e));
     }
@@ -430,7 +424,7 @@ fn c07_graph<D: ByteDev>(ctx: &mut Ctx, label: &str, max_chain: u32) {
     let mut by_bisim = 0u64;
     let mut bad_edges = 0u64;
     let mut verdict_cache: std::collections::HashMap<usize, Option<Vec<usize>>> = std::collections::HashMap::new();
-    for s in 0..g.states.len() {
+    for s in 0..g.expanded {
         for ai in 0..g.outs[s].len() {
             if matches!(g.outs[s][ai], Ok(Ok(None))) {
                 continue;
@@ -474,7 +468,7 @@ fn c07_graph<D: ByteDev>(ctx: &mut Ctx, label: &str, max_chain: u32) {
         }
     }
     // longest chain of "no event" edges (must be acyclic and <= max_chain)
-    let n = g.states.len();
+    let n = g.expanded;
     let mut longest = vec![0u32; n];
     // iterate to fixpoint with a bound that detects cycles
     let mut cyclic = false;
@@ -484,6 +478,9 @@ fn c07_graph<D: ByteDev>(ctx: &mut Ctx, label: &str, max_chain: u32) {
             for (ai, o) in g.outs[s].iter().enumerate() {
                 if matches!(o, Ok(Ok(None))) {
                     let t = g.succ[s][ai] as usize;
+                    if t >= n {
+                        continue;
+                    }
                     let v = longest[t] + 1;
                     if v > longest[s] {
                         longest[s] = v;
@@ -509,6 +506,9 @@ fn c07_graph<D: ByteDev>(ctx: &mut Ctx, label: &str, max_chain: u32) {
             let mut found = false;
             for (ai, o) in g.outs[s].iter().enumerate() {
                 let t = g.succ[s][ai] as usize;
+                if t >= n {
+                    continue;
+                }
                 if matches!(o, Ok(Ok(None))) && (cyclic || longest[t] + 1 == longest[s]) {
                     ops.push(Op::Byte(sys.alphabet[ai]));
                     obs = "Ok(None)".into();
@@ -569,6 +569,9 @@ where
         if x == y {
             continue;
         }
+        if x >= g.expanded || y >= g.expanded {
+            continue; // capped graph: behaviour beyond the cap is unknown
+        }
         for ai in 0..g.outs[x].len() {
             if g.outs[x][ai] != g.outs[y][ai] {
                 let mut seq = vec![ai];
@@ -594,25 +597,34 @@ where
 /// all shadows must answer exactly like the main decoder from then on.
 fn c07_tree_rec<D: ByteDev>(
     main: &D,
-    shadows: &mut Vec<(usize, D)>,
+    shadows: &[(usize, D)],
     run: u32,
     max_chain: u32,
     depth: usize,
     max: usize,
+    only: Option<u8>,
+    guard: bool,
     path: &mut Vec<u8>,
     n: &mut u64,
     bads: &mut Vec<TreeBad>,
 ) {
-    for b in 0..=255u8 {
+    let (lo, hi) = match only {
+        Some(b) => (b, b),
+        None => (0u8, 255u8),
+    };
+    let tx = |r: &Result<EvR, String>| match r {
+        Ok(x) => fmt_ev(x),
+        Err(p) => p.clone(),
+    };
+    for b in lo..=hi {
         let mut m2 = main.clone();
-        let r = m2.feed(b);
+        let r: Result<EvR, String> = if guard { feed_guarded(&mut m2, b) } else { Ok(m2.feed(b)) };
         *n += 1;
-        let base = shadows.len();
         // advance clones of the shadows
-        let mut sh2: Vec<(usize, D)> = Vec::with_capacity(base + 1);
+        let mut sh2: Vec<(usize, D)> = Vec::with_capacity(shadows.len() + 1);
         for (start, sh) in shadows.iter() {
             let mut s2 = sh.clone();
-            let rs = s2.feed(b);
+            let rs: Result<EvR, String> = if guard { feed_guarded(&mut s2, b) } else { Ok(s2.feed(b)) };
             if rs != r && bads.len() < 64 {
                 let mut p = path.clone();
                 p.push(b);
@@ -623,17 +635,33 @@ fn c07_tree_rec<D: ByteDev>(
                         D::component(),
                         bytes_hex(&path[..*start]),
                         bytes_hex(&p[*start..]),
-                        fmt_ev(&r),
-                        fmt_ev(&rs)
+                        tx(&r),
+                        tx(&rs)
                     ),
                     path: p,
-                    expected: format!("same as fresh decoder: {}", fmt_ev(&rs)),
-                    observed: fmt_ev(&r),
+                    expected: format!("same as fresh decoder: {}", tx(&rs)),
+                    observed: tx(&r),
                 });
             }
-            sh2.push((*start, s2));
+            if rs.is_ok() {
+                sh2.push((*start, s2));
+            }
         }
-        let terminal = !matches!(r, Ok(None));
+        if r.is_err() {
+            if bads.len() < 64 {
+                let mut p = path.clone();
+                p.push(b);
+                bads.push(TreeBad {
+                    key: format!("{}/panic/{}", D::component(), bytes_hex(&p).replace(' ', "")),
+                    text: format!("{}: stream {} panics: {}", D::component(), bytes_hex(&p), tx(&r)),
+                    path: p,
+                    expected: "an event, an error or 'no event yet'".into(),
+                    observed: tx(&r),
+                });
+            }
+            continue;
+        }
+        let terminal = !matches!(r, Ok(Ok(None)));
         let run2 = if terminal { 0 } else { run + 1 };
         if run2 > max_chain && bads.len() < 64 {
             let mut p = path.clone();
@@ -643,7 +671,7 @@ fn c07_tree_rec<D: ByteDev>(
                 text: format!("{}: stream {} ends with {} consecutive 'no event yet' results (limit {})", D::component(), bytes_hex(&p), run2, max_chain),
                 path: p,
                 expected: format!("at most {} consecutive Ok(None)", max_chain),
-                observed: fmt_ev(&r),
+                observed: tx(&r),
             });
         }
         if depth + 1 < max {
@@ -651,7 +679,7 @@ fn c07_tree_rec<D: ByteDev>(
                 sh2.push((path.len() + 1, D::fresh()));
             }
             path.push(b);
-            c07_tree_rec(&m2, &mut sh2, run2, max_chain, depth + 1, max, path, n, bads);
+            c07_tree_rec(&m2, &sh2, run2, max_chain, depth + 1, max, None, guard, path, n, bads);
             path.pop();
         }
     }
@@ -664,41 +692,33 @@ fn bytes_hex(b: &[u8]) -> String {
 
 fn c07_tree<D: ByteDev>(ctx: &mut Ctx, label: &str, max: usize, max_chain: u32) {
     let results = par_chunks(256, |first| {
-        let mut n = 0u64;
-        let mut bads = vec![];
-        let res = catch_unwind(AssertUnwindSafe(|| {
-            let b = first as u8;
-            let mut d = D::fresh();
-            let r = d.feed(b);
-            n += 1;
-            let terminal = !matches!(r, Ok(None));
-            let mut shadows = vec![];
-            if terminal {
-                shadows.push((1usize, D::fresh()));
-            }
-            let mut path = vec![b];
-            if max > 1 {
-                c07_tree_rec(&d, &mut shadows, if terminal { 0 } else { 1 }, max_chain, 1, max, &mut path, &mut n, &mut bads);
-            }
-        }));
-        (n, bads, res.err().map(crate::replay::panic_text))
+        let run = |guard: bool| {
+            let mut n = 0u64;
+            let mut bads = vec![];
+            let mut path = vec![];
+            c07_tree_rec(&D::fresh(), &[], 0, max_chain, 0, max, Some(first as u8), guard, &mut path, &mut n, &mut bads);
+            (n, bads)
+        };
+        match catch_unwind(AssertUnwindSafe(|| run(false))) {
+            Ok(r) => (r, false),
+            Err(_) => (run(true), true),
+        }
     });
     let mut total = 0u64;
     let mut nb = 0usize;
-    for (n, bads, panic) in results {
+    let mut slow = 0;
+    for ((n, bads), was_slow) in results {
         total += n;
         nb += bads.len();
+        slow += was_slow as u32;
         for b in bads {
             let ops = b.path.iter().map(|x| Op::Byte(*x)).collect();
             ctx.violation(&b.key, &b.text, Replay::one(&D::component(), ops, &b.expected, Some(b.observed)));
         }
-        if let Some(p) = panic {
-            ctx.note(&format!("{}: a stream-tree chunk panicked: {}", label, p));
-        }
     }
     ctx.evaluations += total;
     ctx.traces_validated += total;
-    ctx.part(label, json!({"engine": "B differential stream tree (hook-free)", "max_stream_length": max, "stream_positions_checked": total, "violations_recorded": nb}));
+    ctx.part(label, json!({"engine": "B differential stream tree (hook-free)", "max_stream_length": max, "stream_positions_checked": total, "violations_recorded": nb, "chunks_rerun_with_panic_guards": slow}));
 }
 
 pub fn c07(ctx: &mut Ctx) -> (u64, String) {
